@@ -28,6 +28,7 @@ def run(chk):
     r15g(chk)
     r15h(chk)
     r15i(chk)
+    r15j(chk)
 
 
 def _is_filtered(e):
@@ -439,3 +440,25 @@ def eval_delete_rule(chk, rid):
     victim = rs[5]
     Evaluator(fn, intrinsics={'CSSRule': RuleM, 'xml': Record(dom=Record(IndexSizeErr='IndexSizeErr', NoModificationAllowedErr='NoModificationAllowedErr'))}, model_types=(Rules,), module=sm, cls='CSSStyleSheet').run(self=me, index=5)
     chk.ob(rid, SHEET, 'CSSStyleSheet.deleteRule', 'the removed rule names no sheet as parent', victim._parentStyleSheet is None and victim not in rs, f'parent {victim._parentStyleSheet!r}')
+
+
+def r15j(chk, rid='R15.j'):
+    chk.rule(rid, 'a namespace prefix is looked up as it is written, decided by evaluation: the handler New.productions registers for namespace_prefix tokens is evaluated for a prefix with upper-case letters and for one with an escape, in a type selector and inside an attribute selector: the prefix handed on for the lookup is the prefix of the token, letter for letter (prefixes are case-sensitive: Svg| and svg| may denote different namespaces)')
+    from sa.absint import Evaluator, Raised, Record
+
+    from .callbacks import new_productions
+
+    sm = chk.repo.mod('cssutils/css/selector.py')
+    handlers = {cb.key: cb.target for cb in new_productions(chk.repo)}
+    h = handlers.get('namespace_prefix')
+    if h is None or isinstance(h, ast.Lambda):
+        raise AnalysisError('New.productions: no handler for namespace_prefix')
+    for prefix in ('Svg|', 'XLink|', 'svg|', '*|', '|'):
+        for context, expected in (('', 'type_selector universal HASH class attrib pseudo negation '), ('attrib', 'prefix attribute')):
+            appended = []
+            me = Record(context=[context], selector=Record(_tokenvalue=lambda tok, normalize=False: tok[1].lower() if normalize else tok[1], _type=lambda tok: tok[0]), wellformed=True, _log=Record(error=lambda *a, **k: None))
+            me.append = lambda seq, v, typ=None, token=None: appended.append((v, typ))
+            res = Evaluator(h, intrinsics={'self._log.error': me._log.error}, module=sm, cls='New').run(self=me, expected=expected, seq=[], token=('namespace_prefix', prefix, 1, 1))
+            ok = not isinstance(res, Raised) and appended == [(prefix, '_PREFIX')]
+            chk.ob(rid, 'cssutils/css/selector.py', f'New.{h.name}', f'prefix {prefix!r} ' + ('in an attribute selector' if context else 'of a type selector') + ' is handed on unchanged', ok,
+                   f'handed on {appended}: the name is resolved with another prefix than the one written - to another namespace, or to none (NamespaceErr)')
